@@ -155,6 +155,25 @@ def _merge_all():
     return to_code(m)
 out["merged_all_lists"] = quiet(_merge_all)
 
+# T10: the first import block names one symbol under several aliases (sorting keeps ties in the order they are met)
+def _dedup_imports():
+    from cdd.shared.ast_utils import deduplicate_sorted_imports
+    m = ast.parse("from os import path\nfrom os import path as osp, sep\nfrom os import path as p2, environ\nimport sys\n\nX = 1\n")
+    r = deduplicate_sorted_imports(m)
+    return to_code(r if r is not None else m)
+out["dedup_import_aliases"] = quiet(_dedup_imports)
+
+# T11: a route whose yml block names several entities: which one the operation is about must not depend on the hash seed
+def _route_entities():
+    import cdd.routes.parse.bottle
+    src = ("@rest_api.post('/api/pet')\ndef create():\n    \"\"\"\n    Create `Pet`\n\n    ```yml\n    responses:\n      '201':\n        description: A `Pet` object.\n"
+           "        content:\n          application/json:\n            schema:\n              $ref: ```Pet```\n      '202':\n        description: A `Job` object.\n"
+           "        content:\n          application/json:\n            schema:\n              $ref: ```Job```\n      '400':\n        description: A `ServerError` object.\n"
+           "        content:\n          application/json:\n            schema:\n              $ref: ```ServerError```\n    ```\n\n    :return: it\n    \"\"\"\n    return {}\n")
+    r = cdd.routes.parse.bottle.bottle(ast.parse(src).body[0])
+    return json.dumps(r, sort_keys=True, default=repr)
+out["route_entities"] = quiet(_route_entities)
+
 # T6: gen_routes / upsert_routes into an existing routes file that has none of the requested routes yet
 d = tempfile.mkdtemp(prefix="verif-c10-")
 try:
